@@ -96,7 +96,9 @@ func ReadHeaders(resp *protocol.Response, r network.Reader) error {
 	if err != nil {
 		return err
 	}
-	if resp.Header.StatusCode() == consts.StatusContinue {
+	// A server may send more than one interim "100 Continue" before the final
+	// response (RFC 7231 section 6.2): skip all of them.
+	for resp.Header.StatusCode() == consts.StatusContinue {
 		// Read the next response according to http://www.w3.org/Protocols/rfc2616/rfc2616-sec8.html .
 		if err = ReadHeader(&resp.Header, r); err != nil {
 			return err
